@@ -24,7 +24,9 @@ CHECKS = {
         text="Every corpus procedure (as written and after randomly chosen accepted schedules) is compiled by the real backend, built with "
              "gcc + ASan/UBSan and run on each admissible input of the bounded domain (dense and offset/stride-2 windows, negative "
              "index arguments, all config fields); each execution's complete final state is one trace event that TLC accepts only if "
-             "it equals the final state of spec/ExoMachine.tla (mode Z) on the same procedure and input.",
+             "it equals the final state of spec/ExoMachine.tla (mode Z) on the same procedure and input. Corpora: A, memory lifetimes, "
+             "name clashes, the sorted-emission library and the index-form matrix; plus the final procedure of every host-realisable "
+             "test of the repository's own test files (recorded by harness/testrec.py).",
         note="Trusted: gcc 12, the C driver generator harness/cdrv.py, TLC, exact small-integer data (mode Z); host-realisable memories only."),
     "C04": dict(level=MC, design="6/C04",
         technique="TLA+ static predicate ExoProgram!WellScoped + safety traps of the ExoMachine small-step semantics, model-checked by TLC on derived procedures",
@@ -80,7 +82,8 @@ CHECKS = {
         text="(1) The IR after the four backend analyses (with Free statements) is exported and run by TLC: no access or window after "
              "free (also through window aliases), no double free, no leak at scope exit, on all bounded inputs. (2) The compiled C, "
              "built with ASan/UBSan/LSan and -Werror=discarded-qualifiers, is executed on the same inputs; abort and "
-             "const-violation events are not behaviours of the trace specification.",
+             "const-violation events are not behaviours of the trace specification. The final procedures of the repository's own "
+             "tests are included in both parts.",
         note="Trusted: TLC, gcc sanitizers, harness/analyzed.py (re-runs the backend analyses per procedure as the compiler does); "
              "signed overflow only as far as UBSan sees it on small inputs."),
     "C09": dict(level=MC, design="6/C09",
@@ -127,7 +130,8 @@ CHECKS = {
              "over symbols whose base names include generated-looking names (x, x_1, y), and every history is replayed on the real "
              "PrintEnv; the same injectivity predicate monitors every real print of corpus and derived procedures; the printed "
              "text is parsed again by the real front end, must print identically, and TLC checks the reparsed procedure equivalent "
-             "to the original on all bounded inputs.",
+             "to the original on all bounded inputs; the final procedures of the repository's own tests go through the same "
+             "print / monitor / reparse / compare pipeline.",
         note="Trusted: TLC; reparses rejected by the front end's incomplete static checks are counted, not failed; "
              "already ill-scoped procedures are outside the claim."),
     "C13": dict(level=MC, design="6/C13",
